@@ -18,7 +18,7 @@ DICT_PATH = P.DICT_PATH
 SELFTEST_ARG = {"pid": "C05", "norders": 2, "k": 2}
 POOL = ["inlet", "outlet", "wall", "sym", "cyc_a", "cyc_b"]
 
-TIERS = {"quick": (2200, 3, 3, 40), "thorough": (40000, 4, 6, 1500)}
+TIERS = {"quick": (2200, 3, 3, 100), "thorough": (40000, 4, 6, 1500)}
 
 
 def _unit(rs: Stream) -> List[float]:
